@@ -13,9 +13,10 @@ ops (all integers decimal; times = ns since Go's zero time, see Model/Epochs.lea
   exportimport <ctxTimeNs> <ctxHeight>        ExportGenesis; store wiped; InitGenesis under that context -> the `dump` line | panic
 
 observation of `block` / `dump`:
-  <ok|panic> T <id>,<start>,<dur>,<epoch>,<curStart>,<started>,<height>;… S <e|s><n>,… C <id>.<e|s>.<n>.<sub>,… W <i>{k=v,…}|…
+  <ok|panic> T <id>,<start>,<dur>,<epoch>,<curStart>,<started>,<height>;… S <e|s><n>,… C <id>.<e|s>.<n>.<sub>,… W <i>{k=v,…}|… V <view>,…
   (T,W: the state inside the block's context when BeginBlocker returned/panicked; S: keeper signals in order;
-   C: hook invocations in order) -/
+   C: hook invocations in order; V: per invocation what the subscriber read from the epochs keeper INSIDE the hook:
+   <epoch>/<curStart>/<started>/<startHeight>/<NumBlocksSinceEpochStart>/<epoch;… of AllEpochInfos in store order>*<run length>) -/
 import OsmoVerif.Model.Epochs
 import OsmoVerif.Model.Det
 namespace OsmoVerif.Epochs
@@ -84,6 +85,20 @@ def showObs (panicked : Bool) (timers : List EpochInfo) (subs : List Store) (sig
     ++ " C " ++ ",".intercalate (calls.map (fun c => s!"{c.timer}.{showKind c.kind}.{c.epoch}.{c.sub}"))
     ++ " W " ++ "|".intercalate (showSubsFrom 0 subs)
 
+def showView (v : View) : String :=
+  s!"{v.own.currentEpoch}/{v.own.currentEpochStartTime}/{if v.own.epochCountingStarted then 1 else 0}/{v.own.currentEpochStartHeight}/{v.sinceStart}/"
+    ++ ";".intercalate (v.all.map fun e => toString e.currentEpoch)
+
+/-- run-length encoding of consecutive equal strings -/
+def rle : List String → List (String × Nat)
+  | [] => []
+  | x :: rest =>
+    match rle rest with
+    | (y, n) :: ys => if y = x then (x, n + 1) :: ys else (x, 1) :: (y, n) :: ys
+    | [] => [(x, 1)]
+
+def showViews (vs : List View) : String := " V " ++ ",".intercalate ((rle (vs.map showView)).map fun p => p.1 ++ "*" ++ toString p.2)
+
 def initEpochs : State := initState 0
 
 def stepEpochs (st : State) (op : String) (args : List String) : State × String :=
@@ -107,16 +122,16 @@ def stepEpochs (st : State) (op : String) (args : List String) : State × String
     | some t, some h, some es =>
       let b : Block := { t := t, h := h, script := scriptOf es }
       let o := beginBlock st b
-      (stepBlock st b, showObs o.panicked o.timers o.subs o.signals o.calls)
+      (stepBlock st b, showObs o.panicked o.timers o.subs o.signals o.calls ++ showViews (blockViews st b))
     | _, _, _ => (st, "bad-op")
-  | "dump", [] => (st, showObs false st.timers st.subs [] [])
+  | "dump", [] => (st, showObs false st.timers st.subs [] [] ++ showViews [])
   -- C19: x/epochs ExportGenesis -> store wiped -> InitGenesis under a context with that block time / height
   -- (`Det.epochsImport ctxT ctxH subs (Det.epochsExport s)`: AddEpochInfo per timer); `panic` = AddEpochInfo returned an error
   | "exportimport", [ctxT, ctxH] =>
     match ctxT.toInt?, ctxH.toInt? with
     | some ctxT, some ctxH =>
       match Det.epochsImport ctxT ctxH st.subs (Det.epochsExport st) with
-      | some st' => (st', showObs false st'.timers st'.subs [] [])
+      | some st' => (st', showObs false st'.timers st'.subs [] [] ++ showViews [])
       | none => (st, "panic")
     | _, _ => (st, "bad-op")
   | _, _ => (st, "bad-op")
